@@ -811,6 +811,7 @@ fn main() {
             }
         }
         "serial" => serial::cmd(&args[2..]),
+        "serial-rounds" => serial::cmd_rounds(&args[2..]),
         other => {
             eprintln!("unknown command {other}");
             std::process::exit(2);
